@@ -1,6 +1,8 @@
 // Copyright Amazon.com, Inc. or its affiliates. All Rights Reserved.
 // SPDX-License-Identifier: Apache-2.0
 
+#![allow(unexpected_cfgs)] // `aws_s2n_quic_verif` is only ever set by the external verification harness
+
 #[cfg(all(loom, test))]
 mod loom_primitive {
     use ::core::task::Waker;
@@ -33,12 +35,54 @@ mod loom_primitive {
 #[cfg(all(loom, test))]
 pub use self::loom_primitive::*;
 
+// Add-only verification hook: with `--cfg aws_s2n_quic_verif` (set only by the harness in
+// /verif/sim/threads, never by a normal build) the sync module is compiled against shuttle's
+// scheduler-controlled primitives. With the cfg off nothing below is compiled.
+#[cfg(aws_s2n_quic_verif)]
+mod verif_primitive {
+    use ::core::task::Waker;
+    use ::shuttle::sync::Mutex;
+
+    pub use ::shuttle::sync::{atomic::*, Arc};
+
+    #[derive(Debug, Default)]
+    pub struct AtomicWaker(Mutex<Option<Waker>>);
+
+    impl AtomicWaker {
+        pub fn new() -> Self {
+            Self(Mutex::new(None))
+        }
+
+        pub fn wake(&self) {
+            if let Some(waker) = self.take() {
+                waker.wake();
+            }
+        }
+
+        pub fn take(&self) -> Option<Waker> {
+            self.0.lock().unwrap().take()
+        }
+
+        pub fn register(&self, waker: &Waker) {
+            let mut slot = self.0.lock().unwrap();
+            match &*slot {
+                Some(prev) if prev.will_wake(waker) => {}
+                _ => *slot = Some(waker.clone()),
+            }
+        }
+    }
+}
+
+#[cfg(aws_s2n_quic_verif)]
+pub use self::verif_primitive::*;
+
 mod core_primitive {
     pub use ::core::sync::atomic::*;
     pub use alloc::sync::Arc;
     pub use atomic_waker::AtomicWaker;
 }
 
+#[cfg(not(aws_s2n_quic_verif))]
 #[cfg(not(all(loom, test)))]
 pub use self::core_primitive::*;
 
